@@ -323,7 +323,7 @@ theorem step_cas (s : St) (t : Tid) (h : Inv s) (hpc : (s.ths t).pc = .cas) : In
       · simp [hu] at hu'; exact hh hu'
     · intro u
       by_cases hnil : s.plist = []
-      · have hres : (s.ths t).res = none := by rw [← hhead, hnil]; rfl
+      · have hres : (s.ths t).res = none := by rw [← hhead]; simp [headNode, hnil]
         have hnw : ∀ v, (s.ths v).pc.waiting = false := by
           intro v; have := h.wait_last v; rw [hnil] at this; simpa using this
         by_cases hu : u = t
@@ -333,7 +333,7 @@ theorem step_cas (s : St) (t : Tid) (h : Inv s) (hpc : (s.ths t).pc = .cas) : In
       · have hres : (s.ths t).res ≠ none := by
           rw [← hhead]; cases hp : s.plist with
           | nil => exact absurd hp hnil
-          | cons a l => simp
+          | cons a l => simp [headNode, hp]
         simp only [getLast?_cons_ne t s.plist hnil]
         by_cases hu : u = t
         · subst hu; simp [hres, Pc.waiting]; simpa using hwl
@@ -805,7 +805,10 @@ macro_rules
         | (simp_all [Pc.active, Pc.waiting, Pc.inflight, Pc.outside, Pc.handling, Pc.pass2, Pc.fresh, List.count_cons]; done)
         | (intro x; simp_all [Pc.active, Pc.waiting, Pc.inflight, Pc.outside, Pc.handling, Pc.pass2, Pc.fresh, List.count_cons]; try omega)))
 
-theorem step_p1Load (s : St) (t : Tid) (h : Inv s) (hpc : (s.ths t).pc = .p1Load) : Inv (aggStep s t) := by
+/-- no operation (current or still to be called) is a pop whose element assignment throws -/
+def NT (s : St) : Prop := ∀ u, popThrows (s.ths u).op = false ∧ ∀ p ∈ (s.ths u).todo, popThrows p.1 = false
+
+theorem step_p1Load (s : St) (t : Tid) (h : Inv s) (hnt : NT s) (hpc : (s.ths t).pc = .p1Load) : Inv (aggStep s t) := by
   unfold aggStep; simp only [hpc]
   have hh : (s.ths t).pc.handling = true := by simp [hpc, Pc.handling]
   split
@@ -814,10 +817,15 @@ theorem step_p1Load (s : St) (t : Tid) (h : Inv s) (hpc : (s.ths t).pc = .p1Load
     hm_side
   · rename_i u rest hrem
     split
-    · split
-      · obtain ⟨h0, e1, e2, e3, e4⟩ := elem_frame h u (some (back s.heap.data)) t
-        apply h0.handler_move t _ _ rfl rfl rfl rfl (by rw [e1]; exact hh)
-        hm_side
+    · rename_i thr hop
+      split
+      · split
+        · rename_i hthr
+          have := (hnt u).1
+          rw [hop, hthr] at this; simp [popThrows] at this
+        · obtain ⟨h0, e1, e2, e3, e4⟩ := elem_frame h u (some (back s.heap.data)) t
+          apply h0.handler_move t _ _ rfl rfl rfl rfl (by rw [e1]; exact hh)
+          hm_side
       · apply h.handler_move t _ _ rfl rfl rfl rfl hh
         hm_side
     · split
@@ -825,7 +833,7 @@ theorem step_p1Load (s : St) (t : Tid) (h : Inv s) (hpc : (s.ths t).pc = .p1Load
         hm_side
       · refine h.handler_move t (fun x => { x with tmp := u, rem := rest, pc := .p1SzLd, st := 1 }) _ rfl rfl rfl rfl hh ?_ ?_ ?_ ?_ ?_
         hm_side
-theorem next_frame {s : St} (h : Inv s) (u : Tid) (v : Option Tid) (t : Tid) :
+theorem next_frame {s : St} (h : Inv s) (u : Tid) (v : Option (Tid × Nat)) (t : Tid) :
     Inv (s.modTh u (fun x => { x with next := v })) ∧
     ((s.modTh u (fun x => { x with next := v })).ths t).pc = (s.ths t).pc ∧
     ((s.modTh u (fun x => { x with next := v })).ths t).rem = (s.ths t).rem ∧
@@ -838,7 +846,7 @@ theorem step_p1Defer (s : St) (t : Tid) (h : Inv s) (hpc : (s.ths t).pc = .p1Def
   unfold aggStep; simp only [hpc]
   have hh : (s.ths t).pc.handling = true := by simp [hpc, Pc.handling]
   apply adv1_inv _ _ _ (by simp)
-  obtain ⟨h0, e1, e2, e3, e4⟩ := next_frame h (s.ths t).tmp (s.ths t).dfr.head? t
+  obtain ⟨h0, e1, e2, e3, e4⟩ := next_frame h (s.ths t).tmp ((s.ths t).dfr.head?.map (nodeOf s)) t
   have e1' := e1.trans hpc
   refine h0.handler_move t _ _ rfl rfl rfl rfl (by rw [e1]; exact hh) ⟨rfl, rfl, rfl, rfl, rfl⟩ ?_ ?_ ?_ ?_
   · simp [Pc.handling]
@@ -849,7 +857,7 @@ theorem step_p1Defer (s : St) (t : Tid) (h : Inv s) (hpc : (s.ths t).pc = .p1Def
     simp
     omega
 
-theorem step_p2Load (s : St) (t : Tid) (h : Inv s) (hpc : (s.ths t).pc = .p2Load) : Inv (aggStep s t) := by
+theorem step_p2Load (s : St) (t : Tid) (h : Inv s) (hnt : NT s) (hpc : (s.ths t).pc = .p2Load) : Inv (aggStep s t) := by
   unfold aggStep; simp only [hpc]
   have hh : (s.ths t).pc.handling = true := by simp [hpc, Pc.handling]
   have hd := h.p2_dfr t (by simp [hpc, Pc.pass2])
@@ -862,12 +870,15 @@ theorem step_p2Load (s : St) (t : Tid) (h : Inv s) (hpc : (s.ths t).pc = .p2Load
     · apply h.handler_move t _ _ rfl rfl rfl rfl hh
       hm_side
     · split
-      · obtain ⟨h0, e1, e2, e3, e4⟩ := elem_frame h u (some (back s.heap.data)) t
-        apply h0.handler_move t _ _ rfl rfl rfl rfl (by rw [e1]; exact hh)
-        hm_side
-      · obtain ⟨h0, e1, e2, e3, e4⟩ := elem_frame h u (some (get s.heap.data 0)) t
-        apply h0.handler_move t _ _ rfl rfl rfl rfl (by rw [e1]; exact hh)
-        hm_side
+      · rename_i hthr
+        rw [(hnt u).1] at hthr; simp at hthr
+      · split
+        · obtain ⟨h0, e1, e2, e3, e4⟩ := elem_frame h u (some (back s.heap.data)) t
+          apply h0.handler_move t _ _ rfl rfl rfl rfl (by rw [e1]; exact hh)
+          hm_side
+        · obtain ⟨h0, e1, e2, e3, e4⟩ := elem_frame h u (some (get s.heap.data 0)) t
+          apply h0.handler_move t _ _ rfl rfl rfl rfl (by rw [e1]; exact hh)
+          hm_side
 /-- the handler `t` stores the status of `tmp` -/
 theorem Inv.status_store {s : St} (h : Inv s) (t : Tid) (stv : Nat) (pc' : Pc) (s' : St)
     (hs : s'.ths = ((s.modTh (s.ths t).tmp (fun x => { x with status := stv, nSet := x.nSet + 1 })).modTh t
@@ -1009,8 +1020,15 @@ theorem step_p1Adv (s : St) (t : Tid) (h : Inv s) (hpc : (s.ths t).pc = .p1Adv) 
 theorem step_p2Adv (s : St) (t : Tid) (h : Inv s) (hpc : (s.ths t).pc = .p2Adv) : Inv (aggStep s t) := by
   unfold aggStep; simp only [hpc]; exact adv2_inv s t h hpc
 
-/-- the invariant is inductive -/
-theorem inv_step (s : St) (t : Tid) (h : Inv s) : Inv (aggStep s t) := by
+/-- when does `handle_operations` unwind with the exception of a pop's element assignment (as coded) -/
+def unwinds (s : St) (t : Tid) : Bool :=
+  match (s.ths t).pc, (s.ths t).rem with
+  | .p1Load, u :: _ => popThrows (s.ths u).op && shortcut s.heap && !guarded
+  | .p2Load, u :: _ => popThrows (s.ths u).op && !(s.heap.data.length == 0) && !guarded
+  | _, _ => false
+
+/-- the invariant is inductive (as long as no pop's element assignment throws) -/
+theorem inv_step (s : St) (t : Tid) (h : Inv s) (hnt : NT s) : Inv (aggStep s t) := by
   cases hpc : (s.ths t).pc
   · exact step_idle s t h hpc
   · exact step_ldPend s t h hpc
@@ -1020,12 +1038,12 @@ theorem inv_step (s : St) (t : Tid) (h : Inv s) : Inv (aggStep s t) := by
   · exact step_waitBusy s t h hpc
   · exact step_setBusy s t h hpc
   · exact step_grab s t h hpc
-  · exact step_p1Load s t h hpc
+  · exact step_p1Load s t h hnt hpc
   · exact step_p1Defer s t h hpc
   · exact step_p1SzLd s t h hpc
   · exact step_p1SzSt s t h hpc
   · exact step_p1Status s t h hpc
-  · exact step_p2Load s t h hpc
+  · exact step_p2Load s t h hnt hpc
   · exact step_p2SzLd s t h hpc
   · exact step_p2SzSt s t h hpc
   · exact step_p2Status s t h hpc
@@ -1034,11 +1052,9 @@ theorem inv_step (s : St) (t : Tid) (h : Inv s) : Inv (aggStep s t) := by
   · exact step_p1Adv s t h hpc
   · exact step_p2Adv s t h hpc
 
-theorem inv_init (todo : Tid → List Op) (h0 : Heap) : Inv (Agg todo h0).init := by
+theorem inv_init (todo : Tid → List (Op × Nat)) (h0 : Heap) : Inv (Agg todo h0).init := by
   constructor <;> simp [Agg, Pc.active, Pc.waiting, Pc.outside, Pc.handling, Pc.pass2, Pc.fresh]
 
-theorem inv_run (todo : Tid → List Op) (h0 : Heap) (sched : List Tid) : Inv ((Agg todo h0).run sched) :=
-  Sys.inv_run (Agg todo h0) Inv (inv_init todo h0) inv_step sched
 theorem adv1_ths (s : St) (t u : Tid) :
     ((adv1 s t).ths u).nRet = (s.ths u).nRet ∧ ((adv1 s t).ths u).nSet = (s.ths u).nSet ∧
     ((adv1 s t).ths u).nGrab = (s.ths u).nGrab ∧ ((adv1 s t).ths u).nSub = (s.ths u).nSub := by
@@ -1057,16 +1073,19 @@ theorem adv2_ths (s : St) (t u : Tid) :
 syntax "cnt_cases " ident ", " ident ", " ident : tactic
 macro_rules
   | `(tactic| cnt_cases $s, $t, $u) => `(tactic|
-      (cases hpc : (St.ths $s $t).pc <;> unfold aggStep <;> simp only [hpc, reduceCtorEq, and_false, and_true, false_and, true_and, if_false, or_false, false_or, or_true, true_or, if_true, Nat.add_zero] <;> (repeat' split) <;>
+      (cases hpc : (St.ths $s $t).pc <;> unfold aggStep <;> simp only [hpc, unwind, reduceCtorEq, and_false, and_true, false_and, true_and, if_false, or_false, false_or, or_true, true_or, if_true, Nat.add_zero] <;> (repeat' split) <;>
        (try simp only [(adv1_ths _ _ _).1, (adv1_ths _ _ _).2.1, (adv1_ths _ _ _).2.2.1, (adv1_ths _ _ _).2.2.2,
           (adv2_ths _ _ _).1, (adv2_ths _ _ _).2.1, (adv2_ths _ _ _).2.2.1, (adv2_ths _ _ _).2.2.2])))
 
-/-- `nRet` counts returns: it is incremented exactly by the owner's step out of `rdStatus` -/
+/-- `nRet` counts returns: it is incremented exactly by the owner's step out of `rdStatus` (and, as coded, when
+the handler's call is left by the exception of a pop's element assignment, `unwinds`) -/
 theorem nRet_step (s : St) (t u : Tid) :
-    ((aggStep s t).ths u).nRet = (s.ths u).nRet + (if u = t ∧ (s.ths t).pc = .rdStatus then 1 else 0) := by
+    ((aggStep s t).ths u).nRet = (s.ths u).nRet +
+      (if u = t ∧ ((s.ths t).pc = .rdStatus ∨ unwinds s t = true) then 1 else 0) := by
+  unfold unwinds
   cnt_cases s, t, u
-  all_goals (by_cases hu : u = t <;> (try subst hu) <;> simp [*])
-  all_goals (first | (split <;> rfl) | (split <;> simp_all) | simp_all | skip)
+  all_goals (by_cases hu : u = t <;> (try subst hu) <;> simp [*, popThrows])
+  all_goals (first | (split <;> rfl) | (split <;> simp_all [popThrows]) | simp_all [popThrows] | skip)
 
 /-- `nSet` counts status stores: incremented exactly for `tmp` by the handler's `tmp->status.store` -/
 theorem nSet_step (s : St) (t u : Tid) :
@@ -1087,8 +1106,44 @@ theorem nGrab_step (s : St) (t u : Tid) :
 /-- `nSub` counts submissions: incremented exactly by the owner's successful CAS -/
 theorem nSub_step (s : St) (t u : Tid) :
     ((aggStep s t).ths u).nSub = (s.ths u).nSub +
-      (if u = t ∧ (s.ths t).pc = .cas ∧ s.plist.head? = (s.ths t).res then 1 else 0) := by
+      (if u = t ∧ (s.ths t).pc = .cas ∧ headNode s = (s.ths t).res then 1 else 0) := by
   cnt_cases s, t, u
   all_goals (by_cases hu : u = t <;> (try subst hu) <;> simp [*])
   all_goals (first | (split <;> rfl) | (split <;> simp_all) | simp_all | skip)
+theorem adv1_op (s : St) (t u : Tid) :
+    ((adv1 s t).ths u).op = (s.ths u).op ∧ ((adv1 s t).ths u).todo = (s.ths u).todo := by
+  unfold adv1; dsimp only
+  split
+  · by_cases h : u = t <;> simp [h]
+  · split <;> (by_cases h : u = t <;> simp [h])
+
+theorem adv2_op (s : St) (t u : Tid) :
+    ((adv2 s t).ths u).op = (s.ths u).op ∧ ((adv2 s t).ths u).todo = (s.ths u).todo := by
+  unfold adv2; dsimp only
+  split <;> (by_cases h : u = t <;> simp [h])
+
+/-- a step changes `op` / `todo` only by starting the next call -/
+theorem op_todo_step (s : St) (t u : Tid) :
+    (((aggStep s t).ths u).op = (s.ths u).op ∧ ((aggStep s t).ths u).todo = (s.ths u).todo) ∨
+    (∃ c, (s.ths u).todo = (((aggStep s t).ths u).op, c) :: ((aggStep s t).ths u).todo) := by
+  cases hpc : (s.ths t).pc <;> unfold aggStep <;> simp only [hpc, unwind] <;> (repeat' split) <;>
+    (try simp only [(adv1_op _ _ _).1, (adv1_op _ _ _).2, (adv2_op _ _ _).1, (adv2_op _ _ _).2]) <;>
+    (try simp only [modTh_ths])
+  all_goals (repeat' split)
+  all_goals (first | (left; exact ⟨trivial, trivial⟩) | (left; exact ⟨rfl, rfl⟩) | (subst_vars; first | (left; exact ⟨rfl, rfl⟩) | (right; exact ⟨_, by assumption⟩)) | skip)
+
+theorem nt_step (s : St) (t : Tid) (h : NT s) : NT (aggStep s t) := by
+  intro u
+  rcases op_todo_step s t u with ⟨e1, e2⟩ | ⟨c, e⟩
+  · rw [e1, e2]; exact h u
+  · have := (h u).2
+    rw [e] at this
+    exact ⟨this (((aggStep s t).ths u).op, c) (List.mem_cons_self), fun p hp => this p (List.mem_cons_of_mem _ hp)⟩
+
+theorem inv_run (todo : Tid → List (Op × Nat)) (h0 : Heap) (hnt : ∀ t, ∀ p ∈ todo t, popThrows p.1 = false)
+    (sched : List Tid) : Inv ((Agg todo h0).run sched) ∧ NT ((Agg todo h0).run sched) := by
+  have := Sys.inv_run (Agg todo h0) (fun s => Inv s ∧ NT s)
+    ⟨inv_init todo h0, fun u => ⟨rfl, hnt u⟩⟩
+    (fun s t hs => ⟨inv_step s t hs.1 hs.2, nt_step s t hs.2⟩) sched
+  exact this
 end TbbVerif.C13
